@@ -35,7 +35,7 @@ def parse_fields(rest):
     return d
 
 
-def run_world(w, plan=None, sched=None, timeout=120, keep=False, scans_override=None, export_override=None, presented=None):
+def run_world(w, plan=None, sched=None, timeout=120, keep=False, scans_override=None, export_override=None, presented=None, trace=False):
     """Materialises the world in a fresh sandbox, runs the harness once, returns a RunResult."""
     os.makedirs(SANDBOX_BASE, exist_ok=True)
     root = tempfile.mkdtemp(prefix="tbv-", dir=SANDBOX_BASE)
@@ -44,7 +44,7 @@ def run_world(w, plan=None, sched=None, timeout=120, keep=False, scans_override=
     try:
         tree = os.path.join(root, "w")
         worldgen.materialise(w, tree)
-        return run_in_tree(w, tree, rr, plan, sched, timeout, scans_override, export_override, presented)
+        return run_in_tree(w, tree, rr, plan, sched, timeout, scans_override, export_override, presented, trace)
     finally:
         if not keep:
             shutil.rmtree(root, ignore_errors=True)
@@ -77,7 +77,7 @@ def prepare_links(w, btree, scans_override=None):
     return (tuple(w.export), links), scans_override
 
 
-def run_in_tree(w, tree, rr, plan=None, sched=None, timeout=120, scans_override=None, export_override=None, presented=None):
+def run_in_tree(w, tree, rr, plan=None, sched=None, timeout=120, scans_override=None, export_override=None, presented=None, trace=False):
     btree = os.fsencode(tree)
     rr.tree = tree
     rr.follow, scans_override = prepare_links(w, btree, scans_override)
@@ -130,8 +130,24 @@ def run_in_tree(w, tree, rr, plan=None, sched=None, timeout=120, scans_override=
         os.remove(out_path)
     with open(spec_path, "w") as f:
         f.write("\n".join(spec) + "\n")
+    # the process runs with its working directory, HOME, TMPDIR and the XDG directories inside the sandbox (empty
+    # directories next to the tree), so that anything it leaves there - a log, a cache, a temporary file - is seen
+    side = {}
+    for nm in ("cwd", "home", "tmp"):
+        side[nm] = os.path.join(base, "side-" + nm)
+        os.makedirs(side[nm], exist_ok=True)
+    side_before = set(os.path.join(d, n) for sd in side.values() for d, dn, fn in os.walk(sd) for n in dn + fn)
+    env = dict(os.environ, HOME=side["home"], TMPDIR=side["tmp"], TMP=side["tmp"], TEMP=side["tmp"],
+               XDG_CACHE_HOME=os.path.join(side["home"], ".cache"), XDG_CONFIG_HOME=os.path.join(side["home"], ".config"),
+               XDG_DATA_HOME=os.path.join(side["home"], ".local", "share"), XDG_STATE_HOME=os.path.join(side["home"], ".local", "state"))
+    cmd = [vlib.harness_bin(), "run", spec_path, out_path]
+    trace_path = os.path.join(base, "strace.txt")
+    if trace:
+        # every file-system call of the process (and its threads) that can create, change, rename or remove something
+        cmd = ["strace", "-f", "-qq", "-o", trace_path, "-e",
+               "trace=open,openat,openat2,creat,mkdir,mkdirat,rename,renameat,renameat2,unlink,unlinkat,rmdir,link,linkat,symlink,symlinkat,truncate,chmod,fchmodat,chown,fchownat,utimensat,mknod,mknodat"] + cmd
     try:
-        p = subprocess.run([vlib.harness_bin(), "run", spec_path, out_path], stdout=subprocess.PIPE, stderr=subprocess.PIPE, timeout=timeout)
+        p = subprocess.run(cmd, stdout=subprocess.PIPE, stderr=subprocess.PIPE, timeout=timeout, cwd=side["cwd"], env=env)
         rr.rc = p.returncode
         rr.stdout = p.stdout.decode("utf-8", "replace")
         rr.stderr = p.stderr.decode("utf-8", "replace")
@@ -141,8 +157,36 @@ def run_in_tree(w, tree, rr, plan=None, sched=None, timeout=120, scans_override=
         rr.stderr = "timeout"
     rr.raw = open(out_path).read().splitlines() if os.path.exists(out_path) else []
     rr.after = worldgen.snapshot(tree, *rr.follow)
+    rr.stray = sorted(set(os.path.join(d, n) for sd in side.values() for d, dn, fn in os.walk(sd) for n in dn + fn) - side_before)
+    rr.outside = mutating_calls_outside(trace_path, base) if trace else None
     parse_log(rr)
     return rr
+
+
+def mutating_calls_outside(trace_path, root):
+    """Successful system calls of the traced process that create / modify / rename / remove a path outside `root`
+    (relative paths are relative to the working directory, which is inside it)."""
+    import re
+    out = []
+    if not os.path.exists(trace_path):
+        return ["(no trace was written)"]
+    broot = root.rstrip("/") + "/"
+    for line in open(trace_path, errors="replace"):
+        m = re.match(r"\s*\d+\s+(\w+)\((.*)\)\s+=\s+(-?\d+)", line)
+        if not m or int(m.group(3)) < 0:
+            continue
+        call, args = m.group(1), m.group(2)
+        paths = re.findall(r'"((?:[^"\\]|\\.)*)"', args)
+        if call in ("open", "openat", "openat2", "creat"):
+            if call != "creat" and not re.search(r"O_WRONLY|O_RDWR|O_CREAT|O_TRUNC|O_APPEND", args):
+                continue
+            paths = paths[:1]
+        elif call == "utimensat" and not paths:
+            continue
+        for pth in paths:
+            if pth.startswith("/") and not pth.startswith(broot) and pth not in ("/dev/null", "/dev/tty"):
+                out.append("%s %s" % (call, pth))
+    return out
 
 
 def parse_log(rr):
